@@ -185,7 +185,8 @@ def run(ctx, chk):
     bad = [i for i in h.all_insts() if i.op in ("udiv", "sdiv", "urem", "srem", "fdiv", "frem")]
     chk.ob("C15.half-total", "no division", not bad, "%s:%d" % (h.file, h.line), fn=h.name)
     callees = {i.callee for i in h.calls() if i.callee and not i.callee.startswith("llvm.")}
-    ok = callees <= {"_cbor_encode_uint16"}
+    P16 = prim16(prog, h)
+    ok = bool(P16) and callees <= P16
     chk.ob("C15.half-total", "only callee is the 3-byte primitive", ok, "%s:%d" % (h.file, h.line), fn=h.name, detail=str(sorted(callees)))
     rets = h.returns()
     okr = all(isinstance(r.operands[0], type(rets[0].operands[0])) for r in rets)
@@ -195,9 +196,9 @@ def run(ctx, chk):
         if b.insts and b.term.op == "ret":
             v = b.term.operands[0]
             if isinstance(v, Inst) and v.op == "phi":
-                allprim = all(isinstance(x, Inst) and x.op == "call" and x.callee == "_cbor_encode_uint16" for x in v.operands)
+                allprim = all(isinstance(x, Inst) and x.op == "call" and x.callee in P16 for x in v.operands)
             else:
-                allprim = isinstance(v, Inst) and v.op == "call" and v.callee == "_cbor_encode_uint16"
+                allprim = isinstance(v, Inst) and v.op == "call" and v.callee in P16
     chk.ob("C15.half-total", "every return is the primitive's result", allprim, "%s:%d" % (h.file, h.line), fn=h.name)
     chk.exhaustive = True
 
@@ -375,6 +376,17 @@ def half_to_float_bits(H):
     return (s_ << 31) | ((e_ - 15 + 127) << 23) | (m_ << 13)
 
 
+def prim16(prog, h):
+    """the 3-byte head primitive as the half encoder uses it, whatever it is called: the library routine(s) it calls whose first
+    parameter is a 16-bit integer and whose result is a byte count (what that routine writes is C10.bytes / C03.bytes)"""
+    out = set()
+    for i in h.calls():
+        g = prog.funcs.get(i.callee or "")
+        if g is not None and g.params and g.params[0]["type"] == "i16" and g.ret_type == "i64":
+            out.add(g.name)
+    return out
+
+
 def check_half_encode_table(chk, prog, eff):
     """the half encoder, tabulated: for each of the 65536 half patterns the float that pattern denotes is encoded back to
     the same pattern (NaNs to the canonical 0x7e00).  The encoder's result is an integer term over the float's bits;
@@ -387,10 +399,11 @@ def check_half_encode_table(chk, prog, eff):
                                       "of its argument, evaluated per pattern on the one path whose conditions hold) is the original "
                                       "pattern, and 0x7e00 for every NaN")
     ps = P.Executor(prog, eff).run(f.name)
+    P16_ = prim16(prog, f)
     BITS = None
     paths_ = []
     for pa in ps:
-        enc = pa.calls("_cbor_encode_uint16")
+        enc = [e for e in pa.events if e.kind == "call" and e.callee in P16_]
         if len(enc) != 1:
             chk.ob("C15.half-total", "cbor_encode_half: every path ends in the 3-byte primitive (encoding is total)", False, where, fn=f.name,
                    key="half-total:nopath", detail="a path returns %s without handing a 16-bit value to the primitive: some float produces no bytes"
